@@ -1,6 +1,7 @@
 (* C17 — reported line and column numbers point at the right character. *)
 From Coq Require Import ZArith NArith List Bool Arith.
 From CL Require Import Base.Sx Base.Res Model.LineCol Proofs.LineColProofs.
+From CL Require Proofs.CheckBounds Model.CheckProps Model.CheckAndroid Model.CheckFluent Model.Ftl Model.Robust Model.Unescape.
 Import ListNotations.
 
 (* For every text and every offset up to its length (inclusive): the search
@@ -35,6 +36,81 @@ Theorem C17_position : forall s sp off,
   position s sp off =
   linecol s (if (off <? 0)%Z then snd sp else fst sp + Z.to_nat off).
 Proof. intros s sp off. unfold position. destruct (off <? 0)%Z; reflexivity. Qed.
+
+(* ---- positions attached to check messages ---------------------------------
+   The checker models (Model/CheckProps.v, CheckAndroid.v, CheckFluent.v,
+   Robust.v) attach offsets to their findings; Proofs/CheckBounds.v bounds
+   them for ALL inputs and resolves them through [linecol]:
+   [resolves_between s a0 sp off] says the resolved (line, column) lies between
+   the position of the entity start a0 and the position of the end of the
+   file, lexicographically. *)
+
+(* the offset-to-position map is monotone *)
+Theorem C17_linecol_mono : forall (s : list N) (p q : nat),
+  p <= q -> q <= length s ->
+  exists lp lq, linecol s p = Some lp /\ linecol s q = Some lq /\ CheckBounds.lex_le lp lq.
+Proof. exact CheckBounds.linecol_mono. Qed.
+
+(* .properties: every finding of the checker (encoding, escapes, printf, plural)
+   for an entity without attached comment resolves inside [entity start, EOF] *)
+Theorem C17_bounds_properties :
+  forall (s : list N) (c : CheckProps.check_in) (fs : list CheckProps.finding) (a0 a b e : nat),
+  a0 <= a -> a <= b -> b <= e -> e <= length s ->
+  length (CheckProps.l10n_all c) <= e - a0 ->
+  length (CheckProps.l10n_raw c) <= b - a ->
+  Unescape.props_val (CheckProps.l10n_raw c) = Ok (CheckProps.l10n_val c) ->
+  CheckProps.check c = Ok fs ->
+  Forall (fun f => CheckBounds.resolves_between s a0
+                     (if CheckProps.f_entpos f then (a0, e) else (a, b))
+                     (Z.of_nat (CheckProps.f_pos f))) fs.
+Proof. exact CheckBounds.props_resolved_between_val. Qed.
+
+(* Fluent: under the containment contract of fluent.syntax spans (every span
+   start of the localized entry lies inside the entry) every finding resolves
+   inside [entry start, EOF] *)
+Theorem C17_bounds_fluent :
+  forall (s : list N) locale (r l : Ftl.entry) (all : list N) key (n : nat) is,
+  CheckBounds.FluentB.entry_in (CheckBounds.FluentB.in_span (Ftl.e_pos l) n) l ->
+  Ftl.e_pos l + n <= length s -> length all <= n ->
+  CheckFluent.check locale r l all key = Ok is ->
+  Forall (fun i => CheckBounds.resolves_between s (Ftl.e_pos l)
+                     (Ftl.e_pos l, Ftl.e_pos l + n) (CheckFluent.i_pos i)) is.
+Proof. exact CheckBounds.fluent_resolved_between. Qed.
+
+(* the base encoding warning, for an entity without attached comment *)
+Theorem C17_bounds_base :
+  forall (s : list N) (e : Robust.ent) (es : list Robust.entry),
+  Robust.e_start e = fst (Robust.e_span e) ->
+  fst (Robust.e_span e) <= snd (Robust.e_span e) -> snd (Robust.e_span e) <= length s ->
+  Robust.check_entity s e = Ok es ->
+  Forall (CheckBounds.BaseB.between s (fst (Robust.e_span e))) es.
+Proof. exact CheckBounds.BaseB.check_entity_between. Qed.
+
+(* ... and with an attached comment the bound is FALSE (listed finding
+   encoding-warning-position-with-pre-comment): witness by vm_compute *)
+Theorem C17_bounds_base_precomment_refuted :
+  exists s e es x le0,
+    Robust.e_start e <= fst (Robust.e_span e) /\
+    fst (Robust.e_span e) <= snd (Robust.e_span e) /\ snd (Robust.e_span e) <= length s /\
+    Robust.check_entity s e = Ok es /\ In x es /\
+    linecol s (length s) = Some le0 /\
+    ~ CheckBounds.lex_le (Robust.d_line x, Robust.d_col x) le0.
+Proof. exact CheckBounds.BaseB.check_entity_between_refuted. Qed.
+
+(* Android: positions are offsets into the value; all are bounded by the
+   localized texts EXCEPT the "Conflicting formatting" warnings of the
+   REFERENCE string, which carry offsets into the reference text *)
+Theorem C17_bounds_android_partial :
+  forall (ref l10n : CheckAndroid.entity) (is : list CheckAndroid.issue),
+  CheckAndroid.check ref l10n = Ok is ->
+  Forall (CheckBounds.AndroidB.pos_ok ref l10n) is.
+Proof. exact CheckBounds.AndroidB.check_bounds. Qed.
+
+Theorem C17_bounds_android_refuted :
+  exists ref l10n is i p,
+    CheckAndroid.check ref l10n = Ok is /\ In i is /\
+    CheckAndroid.i_pos i = CheckAndroid.PInt p /\ length (CheckAndroid.val l10n) < p.
+Proof. exact CheckBounds.AndroidB.check_bounds_refuted. Qed.
 
 Example C17_example :
   linecol [97; 10; 98; 99; 10; 100]%N 3 = Some (2, 2) /\
